@@ -519,8 +519,12 @@ def deductive(ctx):
     from contracts import hash_changes as HC
     from pyvc.verify import verify, summarize
 
-    for c in (HC.check_contract(), HC.checksum_contract()):
+    for c in (HC.check_contract(), HC.checksum_contract(), HC.task_hash_changes_contract()):
         summarize(ctx, verify(ctx, c))
+    from contracts import job_run as JR
+
+    for qual in ("Job.run", "Job.run_async"):
+        summarize(ctx, verify(ctx, JR.contract(qual, {"input-hash-check-follows-the-run-unrefreshed": "property:C19"})))
 
 
 def run(ctx):
